@@ -52,12 +52,16 @@ Await up to the observation point, cut at the next `init n`/`clear n` (a re-init
 a new slot; completing a cleared one has no effect). -/
 
 open TracerSlots in
+/-- one step of `epochMid` -/
+def epochStep (n : TracerSlots.Name) (acc : Option (List TracerSlots.Op)) (o : TracerSlots.Op) :
+    Option (List TracerSlots.Op) :=
+  if touches n o then (match o with | .init _ => some [] | _ => none) else acc.map (· ++ [o])
+
 /-- the operations since the slot of `n` was last initialised, if it is initialised:
-`before = pre ++ [init n] ++ mid` with no `init n`/`clear n` in `mid` gives `some mid` -/
+`before = pre ++ [init n] ++ mid` with no `init n`/`clear n` in `mid` gives `some mid`;
+never initialised, or cleared since, gives `none` -/
 def epochMid (n : TracerSlots.Name) (before : List TracerSlots.Op) : Option (List TracerSlots.Op) :=
-  match before.reverse.span (fun o => !touches n o) with
-  | (midRev, .init _ :: _) => some midRev.reverse
-  | _ => none
+  before.foldl (epochStep n) none
 
 /-- the part of `post` that belongs to the same epoch of `n` -/
 def sameEpoch (n : TracerSlots.Name) (post : List TracerSlots.Op) : List TracerSlots.Op :=
